@@ -777,7 +777,7 @@ def run(ctx, n_override=None):
                 'decorated with states on transactions and postings, codes, auxiliary dates, notes, tags, key: value metadata and unusual '
                 'payee/account text; non-trivial = a transaction with at least one such feature in a journal whose printed text re-reads; '
                 'distinct by rendered transaction text')
-    n = n_override or ctx.scale(170, 2200)
+    n = n_override or ctx.scale(130, 600)
     journals = []
     for j in range(n):
         got = accepted_journal(ctx, rng, j)
